@@ -59,12 +59,63 @@ property_init_c = Contract(
               ('PROPAGATED-default-false', flavor('propagated', 'PROPAGATED', False)),
               ('EmbeddedObject-in-either-spelling', EMBEDDED),
               ('a-scalar-without-reference-class', 'is_array is False and array_size is None and reference_class is None'),
-              ('no-VALUE-child-means-NULL', f"implies({no_child('VALUE')}, value is None)")])
+              ('no-VALUE-child-means-NULL', f"implies({no_child('VALUE', 'VALUE.ARRAY')}, value is None)")])
 CONTRACTS.append(Contract(
     P + 'parse_property', params={'self': TP, 'tup_tree': TNODE},
-    callees={'check_node': check_node_for('PROPERTY', ('NAME', 'TYPE'), ('QUALIFIER', 'VALUE')), 'unpack_value': unpack_value_null_c,
+    callees={'check_node': check_node_for('PROPERTY', ('NAME', 'TYPE')), 'unpack_value': unpack_value_null_c,
              'unpack_boolean': unpack_boolean_c, 'list_of_matching': list_of_matching_c,
              'parse_embeddedObject': parse_emb_c, 'CIMProperty.__init__': property_init_c},
     opaque=['CIMProperty'],
     ensures=[('a-CIMProperty', 'isinstance(result, CIMProperty)')],
     raises={'CIMXMLParseError': Raises(), 'XMLParseError': Raises()}))
+
+# ---- PROPERTY.ARRAY
+# ARRAYSIZE is written by the encoder as str(int); a text that is not a decimal integer makes int() raise ValueError out
+# of the parser (known finding under C02, ARRAYSIZE-not-an-integer-ValueError-in-*): outside this property
+ARRAYSIZE_IS_DECIMAL = "implies('ARRAYSIZE' in tup_tree[1], inre(tup_tree[1]['ARRAYSIZE'], '[0-9]+'))"
+ARRAYSIZE = (f"implies('ARRAYSIZE' not in {A}, array_size is None) and "
+             f"implies('ARRAYSIZE' in {A}, array_size == str2int({A}['ARRAYSIZE'], 10))")
+parse_emb_array_c = Contract(P + 'parse_embeddedObject', returns=Opt(Ref('object')),
+                             raises={'CIMXMLParseError': Raises(), 'XMLParseError': Raises()},
+                             ensures=[('NULL-stays-NULL', '(result is None) == (val is None)')],
+                             notes='proved under C01 (parse_embeddedObject[scalar] and [array]: an array stays an array)')
+property_array_init_c = Contract(
+    O + 'CIMProperty.__init__', trusted=True, raises=INIT_ERR,
+    requires=[('name-and-type-from-the-attributes', f"name == {A}['NAME'] and type == {A}['TYPE']"),
+              ('CLASSORIGIN-optional', optional('class_origin', 'CLASSORIGIN')),
+              ('PROPAGATED-default-false', flavor('propagated', 'PROPAGATED', False)),
+              ('EmbeddedObject-in-either-spelling', EMBEDDED),
+              ('ARRAYSIZE-optional-as-integer', ARRAYSIZE),
+              ('an-array-without-reference-class', 'is_array is True and reference_class is None'),
+              ('no-VALUE.ARRAY-child-means-NULL', f"implies({no_child('VALUE', 'VALUE.ARRAY')}, value is None)")])
+CONTRACTS.append(Contract(
+    P + 'parse_property_array', params={'self': TP, 'tup_tree': TNODE},
+    requires=[ARRAYSIZE_IS_DECIMAL],
+    callees={'check_node': check_node_for('PROPERTY.ARRAY', ('NAME', 'TYPE')), 'unpack_value': unpack_value_null_c,
+             'unpack_boolean': unpack_boolean_c, 'list_of_matching': list_of_matching_c,
+             'parse_embeddedObject': parse_emb_array_c, 'CIMProperty.__init__': property_array_init_c},
+    opaque=['CIMProperty'],
+    ensures=[('a-CIMProperty', 'isinstance(result, CIMProperty)')],
+    raises={'CIMXMLParseError': Raises(), 'XMLParseError': Raises()}))
+
+# ---- PROPERTY.REFERENCE
+value_reference_list_c = Contract(
+    P + 'list_of_matching', returns=ListOf('ref'), raises=PARSE_ERR, trusted=True,
+    ensures=[('no-matching-child-means-empty',
+              "implies(forall(lambda k: tup_tree[2][k][0] not in matched, 0, len(tup_tree[2])), len(result) == 0)")],
+    notes='children of the listed kinds, each parsed by its parse_ function')
+property_reference_init_c = Contract(
+    O + 'CIMProperty.__init__', trusted=True, raises=INIT_ERR,
+    requires=[('name-from-the-attribute-type-reference', f"name == {A}['NAME'] and type == 'reference'"),
+              ('REFERENCECLASS-optional', optional('reference_class', 'REFERENCECLASS')),
+              ('CLASSORIGIN-optional', optional('class_origin', 'CLASSORIGIN')),
+              ('PROPAGATED-default-false', flavor('propagated', 'PROPAGATED', False)),
+              ('a-scalar-that-is-not-embedded', 'is_array is False and array_size is None and embedded_object is False'),
+              ('no-VALUE.REFERENCE-child-means-NULL', f"implies({no_child('VALUE.REFERENCE')}, value is None)")])
+CONTRACTS.append(Contract(
+    P + 'parse_property_reference', params={'self': TP, 'tup_tree': TNODE},
+    callees={'check_node': check_node_for('PROPERTY.REFERENCE', ('NAME',)), 'unpack_boolean': unpack_boolean_c,
+             'list_of_matching': value_reference_list_c, 'CIMProperty.__init__': property_reference_init_c},
+    opaque=['CIMProperty'],
+    ensures=[('a-CIMProperty', 'isinstance(result, CIMProperty)')],
+    raises={'CIMXMLParseError': Raises(), 'TypeError': Raises(), 'ValueError': Raises()}))
